@@ -952,6 +952,8 @@ void Parser::ParserImpl::loadVariable(const VariablePtr &variable, const XmlNode
             variable->setInterfaceType(attribute->value());
         } else if (attribute->isType("initial_value")) {
             variable->setInitialValue(attribute->value());
+        } else if (mParsing1XVersion && (attribute->isType("public_interface") || attribute->isType("private_interface")) && (attribute->value() == "none")) {
+            // An explicit 'none' says that the variable has no interface of that kind.
         } else if (mParsing1XVersion && attribute->isType("public_interface")) {
             if (variable->hasInterfaceType(Variable::InterfaceType::PRIVATE)) {
                 variable->setInterfaceType(Variable::InterfaceType::PUBLIC_AND_PRIVATE);
